@@ -661,7 +661,9 @@ def inevitable_closure(f, targets):
 
 def guard_edges(f, targets):
     """[(switch block, arm value or 'else', target)] edges entering the inevitable closure of targets
-    from a switch outside it."""
+    from a switch outside it.  Targets from which a successful return is still reachable (e.g. an error
+    value built eagerly for `ok_or(..)`) are not error sites and are ignored."""
+    targets = [b for b in targets if not can_succeed_avoiding(f, [], start=b)[0]]
     c = inevitable_closure(f, targets)
     out = []
     for i, bb in enumerate(f.blocks):
